@@ -1,422 +1,6 @@
-// simrun is the in-process simulation driver: driver / worker / replay roles.
+// simrun is the in-process simulation driver (see verif/sim/runner).
 package main
 
-import (
-	"encoding/json"
-	"flag"
-	"fmt"
-	"os"
-	"os/exec"
-	"path/filepath"
-	"runtime"
-	"runtime/debug"
-	"sort"
-	"strings"
-	"time"
+import "verif/sim/runner"
 
-	"verif/props/registry"
-	"verif/sim/core"
-	"verif/sim/report"
-	"verif/sim/tape"
-)
-
-var (
-	role    = flag.String("role", "driver", "driver|worker|one|replay")
-	propID  = flag.String("prop", "", "property id")
-	tier    = flag.String("tier", "quick", "quick|thorough")
-	seed    = flag.Int64("seed", 1, "VERIF_SEED")
-	workers = flag.Int("workers", 16, "worker processes")
-	wIdx    = flag.Int("w", 0, "worker index")
-	runsF   = flag.Int("runs", 0, "override number of runs")
-	maxSec  = flag.Int("maxsec", 0, "wall-clock cap per worker (0 = tier default)")
-	outF    = flag.String("out", "", "worker output file")
-	verifD  = flag.String("verif", "/verif", "verif dir")
-	repoD   = flag.String("repo", "", "instrumented scratch copy of the repository")
-	origD   = flag.String("orig", "/repo", "original repository")
-	scratch = flag.String("scratch", "", "scratch dir")
-	tapeF   = flag.String("tape", "", "tape file (role one)")
-	fileF   = flag.String("file", "", "replay file (role replay)")
-	dumpLog = flag.String("dumplog", "", "worker: write per-run log hashes to this file (determinism self-test)")
-	noEvid  = flag.Bool("noevidence", false, "driver: do not write evidence (self-test)")
-)
-
-func env() *core.Env {
-	return &core.Env{Tier: *tier, RepoDir: *repoD, OrigRepo: *origD, Scratch: *scratch, Race: report.RaceBuild}
-}
-
-func die(code int, f string, a ...any) {
-	fmt.Fprintf(os.Stderr, "simrun: "+f+"\n", a...)
-	os.Exit(code)
-}
-
-func main() {
-	flag.Parse()
-	debug.SetGCPercent(200)
-	switch *role {
-	case "driver":
-		driver()
-	case "worker":
-		worker()
-	case "one":
-		one()
-	case "replay":
-		replay()
-	default:
-		die(2, "unknown role %s", *role)
-	}
-}
-
-func getProp() core.Property {
-	p := registry.Get(*propID)
-	if p == nil {
-		die(2, "unknown property %q", *propID)
-	}
-	if err := p.Init(env()); err != nil {
-		die(2, "init %s: %v", *propID, err)
-	}
-	return p
-}
-
-// ---------------------------------------------------------------- worker
-
-func worker() {
-	p := getProp()
-	n := p.Runs(*tier)
-	if *runsF > 0 {
-		n = *runsF
-	}
-	capSec := *maxSec
-	start := time.Now()
-	out := report.NewWorkerOut(*propID)
-	var logf *os.File
-	if *dumpLog != "" {
-		logf, _ = os.Create(*dumpLog)
-		defer logf.Close()
-	}
-	for i := *wIdx; i < n; i += *workers {
-		if capSec > 0 && time.Since(start) > time.Duration(capSec)*time.Second {
-			out.CappedAt = i
-			break
-		}
-		s := tape.Mix(*seed, *propID, i)
-		src := tape.Live(s)
-		wantTrace := out.WantSample()
-		src.KeepLabels = false
-		res := safeRun(p, src, wantTrace)
-		out.Add(i, src, res)
-		if logf != nil {
-			fmt.Fprintf(logf, "%d %016x %016x\n", i, src.Hash(), res.LogHash)
-		}
-	}
-	out.WallS = time.Since(start).Seconds()
-	if err := out.Write(*outF); err != nil {
-		die(2, "write %s: %v", *outF, err)
-	}
-}
-
-func safeRun(p core.Property, src *tape.Source, trace bool) (res *core.Result) {
-	defer func() {
-		if rec := recover(); rec != nil {
-			res = core.NewResult()
-			res.Infra = fmt.Sprintf("harness panic: %v\n%s", rec, debug.Stack())
-		}
-	}()
-	return p.Run(src, trace)
-}
-
-// ---------------------------------------------------------------- one (fresh-process evaluation of one tape)
-
-type oneOut struct {
-	Violations []core.Violation `json:"violations"`
-	Used       []uint32         `json:"used"`
-	Trace      []string         `json:"trace"`
-	Infra      string           `json:"infra"`
-	LogHash    uint64           `json:"loghash"`
-}
-
-func one() {
-	p := getProp()
-	var t []uint32
-	b, err := os.ReadFile(*tapeF)
-	if err != nil {
-		die(2, "%v", err)
-	}
-	if err := json.Unmarshal(b, &t); err != nil {
-		die(2, "%v", err)
-	}
-	src := tape.Replay(t)
-	res := safeRun(p, src, true)
-	o := oneOut{res.Violations, src.Rec, res.Trace, res.Infra, res.LogHash}
-	jb, _ := json.Marshal(o)
-	if *outF != "" {
-		os.WriteFile(*outF, jb, 0o644)
-	} else {
-		os.Stdout.Write(jb)
-	}
-}
-
-// evalTape evaluates a tape either in-process or (race builds: the detector
-// reports each race once per process) in a fresh process.
-func evalTape(p core.Property, t []uint32, fresh bool, trace bool) (*oneOut, error) {
-	if !fresh {
-		src := tape.Replay(t)
-		res := safeRun(p, src, trace)
-		return &oneOut{res.Violations, append([]uint32(nil), src.Rec...), res.Trace, res.Infra, res.LogHash}, nil
-	}
-	dir, err := os.MkdirTemp(*scratch, "one")
-	if err != nil {
-		return nil, err
-	}
-	defer os.RemoveAll(dir)
-	tb, _ := json.Marshal(t)
-	tf := filepath.Join(dir, "tape.json")
-	of := filepath.Join(dir, "out.json")
-	os.WriteFile(tf, tb, 0o644)
-	cmd := exec.Command(os.Args[0], "-role", "one", "-prop", *propID, "-tier", *tier, "-tape", tf, "-out", of,
-		"-repo", *repoD, "-orig", *origD, "-scratch", dir, "-verif", *verifD)
-	cmd.Env = append(os.Environ(), "GORACE=halt_on_error=0 exitcode=0 suppress_equal_stacks=0 suppress_equal_addresses=0 log_path="+filepath.Join(dir, "race"))
-	cmd.Stderr = nil
-	if err := runTimeout(cmd, 120*time.Second); err != nil {
-		return nil, err
-	}
-	b, err := os.ReadFile(of)
-	if err != nil {
-		return nil, err
-	}
-	var o oneOut
-	if err := json.Unmarshal(b, &o); err != nil {
-		return nil, err
-	}
-	return &o, nil
-}
-
-func runTimeout(cmd *exec.Cmd, d time.Duration) error {
-	if err := cmd.Start(); err != nil {
-		return err
-	}
-	done := make(chan error, 1)
-	go func() { done <- cmd.Wait() }()
-	select {
-	case err := <-done:
-		return err
-	case <-time.After(d):
-		cmd.Process.Kill()
-		<-done
-		return fmt.Errorf("timeout after %v", d)
-	}
-}
-
-func has(vs []core.Violation, oracle, sig string) bool {
-	for _, v := range vs {
-		if v.Oracle == oracle && v.Sig == sig {
-			return true
-		}
-	}
-	return false
-}
-
-// ---------------------------------------------------------------- driver
-
-func driver() {
-	start := time.Now()
-	p := getProp()
-	n := p.Runs(*tier)
-	if *runsF > 0 {
-		n = *runsF
-	}
-	W := *workers
-	if W > n {
-		W = n
-	}
-	capSec := *maxSec
-	if capSec == 0 {
-		capSec = 170
-		if *tier == "thorough" {
-			capSec = 2400
-		}
-	}
-	fmt.Printf("[%s] tier=%s seed=%d runs=%d workers=%d race=%v\n", *propID, *tier, *seed, n, W, report.RaceBuild)
-	outs := make([]string, W)
-	cmds := make([]*exec.Cmd, W)
-	for w := 0; w < W; w++ {
-		outs[w] = filepath.Join(*scratch, fmt.Sprintf("worker.%d.json", w))
-		args := []string{"-role", "worker", "-prop", *propID, "-tier", *tier, "-seed", fmt.Sprint(*seed),
-			"-workers", fmt.Sprint(W), "-w", fmt.Sprint(w), "-runs", fmt.Sprint(n), "-maxsec", fmt.Sprint(capSec),
-			"-out", outs[w], "-repo", *repoD, "-orig", *origD, "-scratch", *scratch, "-verif", *verifD}
-		c := exec.Command(os.Args[0], args...)
-		c.Env = append(os.Environ(), "GORACE=halt_on_error=0 exitcode=0 suppress_equal_stacks=0 suppress_equal_addresses=0 log_path="+filepath.Join(*scratch, fmt.Sprintf("race.%d", w)), "GOMAXPROCS=2")
-		ef, _ := os.Create(filepath.Join(*scratch, fmt.Sprintf("worker.%d.stderr", w)))
-		c.Stderr = ef
-		c.Stdout = ef
-		if err := c.Start(); err != nil {
-			die(2, "start worker: %v", err)
-		}
-		cmds[w] = c
-	}
-	infra := []string{}
-	for w, c := range cmds {
-		done := make(chan error, 1)
-		go func() { done <- c.Wait() }()
-		select {
-		case err := <-done:
-			if err != nil {
-				b, _ := os.ReadFile(filepath.Join(*scratch, fmt.Sprintf("worker.%d.stderr", w)))
-				infra = append(infra, fmt.Sprintf("worker %d: %v: %s", w, err, tail(string(b), 1500)))
-			}
-		case <-time.After(time.Duration(capSec+300) * time.Second):
-			c.Process.Kill()
-			infra = append(infra, fmt.Sprintf("worker %d: watchdog", w))
-		}
-	}
-	agg := report.NewWorkerOut(*propID)
-	for w := range outs {
-		o, err := report.ReadWorkerOut(outs[w])
-		if err != nil {
-			infra = append(infra, fmt.Sprintf("worker %d output: %v", w, err))
-			continue
-		}
-		agg.Merge(o)
-	}
-	infra = append(infra, agg.Infra...)
-
-	known, kerr := report.LoadKnown(filepath.Join(*verifD, "known_findings.json"))
-	if kerr != nil {
-		infra = append(infra, "known_findings.json: "+kerr.Error())
-	}
-	// classify violations
-	keys := make([]string, 0, len(agg.Viol))
-	for k := range agg.Viol {
-		keys = append(keys, k)
-	}
-	sort.Strings(keys)
-	unlisted := 0
-	replayDir := filepath.Join(*verifD, "replays", *propID)
-	for _, k := range keys {
-		rec := agg.Viol[k]
-		if kf := known.Match(*propID, rec.V.Oracle, rec.V.Sig); kf != nil {
-			fmt.Printf("KNOWN-FINDING: property=%s oracle=%s signature=%q runs=%d first_run=%d :: %s\n", *propID, rec.V.Oracle, rec.V.Sig, rec.Count, rec.Run, kf.Description)
-			continue
-		}
-		unlisted++
-		if unlisted > 12 {
-			fmt.Printf("VIOLATION property=%s replay=(not minimised: more than 12 distinct signatures) oracle=%s signature=%q\n", *propID, rec.V.Oracle, rec.V.Sig)
-			continue
-		}
-		// minimise
-		// shrinking evaluates in-process (the race detector is told not to suppress
-		// repeated reports); the minimised tape is then verified in a fresh process
-		fresh := report.RaceBuild
-		orig := rec.Tape
-		min, evals := orig, 0
-		budget, dur := 400, 40*time.Second
-		min, evals = tape.Shrink(orig, nil, func(c []uint32) (bool, []uint32) {
-			o, err := evalTape(p, c, false, false)
-			if err != nil || o.Infra != "" {
-				return false, nil
-			}
-			return has(o.Violations, rec.V.Oracle, rec.V.Sig), o.Used
-		}, budget, dur)
-		// final decoded trace from the minimised tape; fall back to the original when the
-		// minimised one does not reproduce (flaky shrink) – the original always is a replay.
-		fin, err := evalTape(p, min, fresh, true)
-		if err != nil || !has(fin.Violations, rec.V.Oracle, rec.V.Sig) {
-			min = orig
-			fin, err = evalTape(p, min, fresh, true)
-		}
-		rf := report.ReplayFile{Property: *propID, Tier: *tier, Seed: *seed, Run: rec.Run, Oracle: rec.V.Oracle, Signature: rec.V.Sig,
-			Message: rec.V.Msg, Tape: min, OriginalTape: orig, ShrinkEvals: evals, Toolchain: runtime.Version(), Race: report.RaceBuild}
-		if err == nil && fin != nil {
-			rf.Trace = fin.Trace
-			for _, v := range fin.Violations {
-				if v.Oracle == rec.V.Oracle && v.Sig == rec.V.Sig {
-					rf.Message = v.Msg
-				}
-			}
-			rf.Reproduced = has(fin.Violations, rec.V.Oracle, rec.V.Sig)
-		}
-		os.MkdirAll(replayDir, 0o755)
-		path := filepath.Join(replayDir, fmt.Sprintf("%d-%d-%s.json", *seed, rec.Run, report.Slug(rec.V.Oracle+"-"+rec.V.Sig)))
-		if err := rf.Write(path); err != nil {
-			infra = append(infra, "write replay: "+err.Error())
-		}
-		fmt.Printf("VIOLATION property=%s replay=%s\n    oracle=%s signature=%q failing_runs=%d tape=%d->%d draws\n    %s\n", *propID, path, rec.V.Oracle, rec.V.Sig, rec.Count, len(orig), len(min), oneLine(rf.Message, 400))
-	}
-	wall := time.Since(start).Seconds()
-	if !*noEvid {
-		ev := agg.Evidence(p, *tier, *seed, wall, unlisted, len(keys)-unlisted)
-		if err := report.WriteJSON(filepath.Join(*verifD, "evidence", *propID+".json"), ev); err != nil {
-			infra = append(infra, "write evidence: "+err.Error())
-		}
-	}
-	fmt.Printf("[%s] evaluations=%d runs=%d nontrivial-distinct=%d violations(unlisted)=%d known=%d wall=%.1fs\n", *propID, agg.Evals, agg.Runs, len(agg.Keys), unlisted, len(keys)-unlisted, wall)
-	for _, k := range core.SortedKeys(agg.Probes) {
-		if agg.Probes[k] == 0 {
-			fmt.Printf("WARNING probe %q stuck at zero\n", k)
-		}
-	}
-	if len(infra) > 0 {
-		for _, s := range infra {
-			fmt.Fprintf(os.Stderr, "INFRA: %s\n", oneLine(s, 2000))
-		}
-		os.Exit(2)
-	}
-	if agg.Runs == 0 {
-		die(2, "no runs executed")
-	}
-	if unlisted > 0 {
-		os.Exit(1)
-	}
-}
-
-func tail(s string, n int) string {
-	if len(s) > n {
-		return s[len(s)-n:]
-	}
-	return s
-}
-
-func oneLine(s string, n int) string {
-	s = strings.ReplaceAll(s, "\n", "\\n")
-	if len(s) > n {
-		s = s[:n] + "…"
-	}
-	return s
-}
-
-// ---------------------------------------------------------------- replay
-
-func replay() {
-	rf, err := report.ReadReplay(*fileF)
-	if err != nil {
-		die(2, "%v", err)
-	}
-	*propID = rf.Property
-	*tier = rf.Tier
-	p := getProp()
-	o, err := evalTape(p, rf.Tape, report.RaceBuild, true)
-	if err != nil {
-		die(2, "replay: %v", err)
-	}
-	if o.Infra != "" {
-		die(2, "replay: %s", o.Infra)
-	}
-	for _, l := range o.Trace {
-		fmt.Println("  trace:", l)
-	}
-	if has(o.Violations, rf.Oracle, rf.Signature) {
-		for _, v := range o.Violations {
-			if v.Oracle == rf.Oracle && v.Sig == rf.Signature {
-				fmt.Printf("VIOLATION property=%s replay=%s\n    oracle=%s signature=%q\n    %s\n", rf.Property, *fileF, v.Oracle, v.Sig, oneLine(v.Msg, 600))
-			}
-		}
-		os.Exit(1)
-	}
-	if len(o.Violations) > 0 {
-		fmt.Printf("replay did not reproduce oracle=%s signature=%q; it reported instead:\n", rf.Oracle, rf.Signature)
-		for _, v := range o.Violations {
-			fmt.Printf("    oracle=%s signature=%q %s\n", v.Oracle, v.Sig, oneLine(v.Msg, 300))
-		}
-		os.Exit(3)
-	}
-	fmt.Printf("replay of %s: no violation on this tree (oracle=%s signature=%q did not fire)\n", *fileF, rf.Oracle, rf.Signature)
-}
+func main() { runner.Main() }
